@@ -46,6 +46,8 @@ struct Prep {
     scripts: Vec<Script>,
     /// path, model(all), model(script) for every script
     reqs: Vec<String>,
+    /// the matcher as the driver reads it (a literal matcher, or the table of a real matcher's answers on the input)
+    msx: String,
 }
 
 /// The C16 rule: `r` is the run whose sink answered stop / error at callback `k`, `e` the uninterrupted run
@@ -199,7 +201,7 @@ fn prepare(line: &str, ctx: &mut Ctx) -> Option<Prep> {
     for sc in &scripts {
         reqs.push(format!("c16.model {} {} {} {}", effsx, msx, inp, sc.to_sx()));
     }
-    Some(Prep { line: line.to_string(), case, m, e_impl, scripts, reqs })
+    Some(Prep { line: line.to_string(), case, m, e_impl, scripts, reqs, msx })
 }
 
 fn flush(batch: &mut Vec<Prep>, ctx: &mut Ctx) {
@@ -516,6 +518,35 @@ fn evaluate<M: Matcher>(p: &Prep, m: &M, answers: &[String], ctx: &mut Ctx) {
         let (evs, _) = split_run(&e_s);
         let ns = evs.len();
         ctx.rep.branch(&format!("strategy:{}{}", name, if path == "multi" { ":multi" } else { "" }));
+        // The reader strategy against the Lean model of search_reader (Model/ReadByLine.lean: BOM peek, roll
+        // buffer, ReadByLine over Core) -- the model that theorems C16_stop_reader / C16_fault_reader /
+        // C16_stop_reader_fast (Props/C16Reader.lean) speak about.  Only with a literal matcher: a table of a real
+        // matcher's answers is indexed by positions of the whole input, the reader asks about windows.
+        // ChunkReader(n) returns at most n bytes per call = the read script `ret n` repeated.
+        let reader_model: Option<String> = match (st, &p.m) {
+            (Strategy::Reader(nchunk), AnyM::Lit(_)) => Some(format!(
+                "c16.rbl {} {} {} (script {}) - -",
+                cfg.effective().to_sx(),
+                p.msx,
+                hex(input),
+                vec![nchunk.to_string(); input.len() + 8].join(" ")
+            )),
+            _ => None,
+        };
+        if let Some(req) = &reader_model {
+            let e_m = ctx.drv.ask(&format!("{} (sink all)", req));
+            ctx.rep.eval();
+            ctx.rep.branch(&format!("reader-model:{}:uninterrupted", if path == "multi" { "multi" } else { path }));
+            if e_m != e_s {
+                ctx.rep.violation(Violation {
+                    kind: "impl_vs_model".into(),
+                    class: "".into(),
+                    tie: "search_reader, uninterrupted: Sink event stream vs Lean model searchReader (theorems C16_stop_reader*)".into(),
+                    case: case.with_script(Script::All).line(),
+                    detail: format!("{} strategy {} impl {} model {}", what, name, e_s, e_m),
+                });
+            }
+        }
         let scripts: Vec<Script> = match case.script {
             Some(Script::All) => vec![],
             Some(sc) => vec![sc],
@@ -542,6 +573,19 @@ fn evaluate<M: Matcher>(p: &Prep, m: &M, answers: &[String], ctx: &mut Ctx) {
             }
             let r = run_with(s, m, input, sc, st).0;
             ctx.rep.eval();
+            if let Some(req) = &reader_model {
+                let r_m = ctx.drv.ask(&format!("{} {}", req, sc.to_sx()));
+                ctx.rep.branch(&format!("reader-model:{}@{}", if is_err { "err" } else { "stop" }, event_kind(evs[k])));
+                if r_m != r {
+                    ctx.rep.violation(Violation {
+                        kind: "impl_vs_model".into(),
+                        class: "".into(),
+                        tie: "search_reader with a stopping/erring sink: Sink event stream vs Lean model searchReader (theorems C16_stop_reader*)".into(),
+                        case: case.with_script(sc).line(),
+                        detail: format!("{} strategy {} {} impl {} model {}", what, name, sc.token(), r, r_m),
+                    });
+                }
+            }
             if let Err(why) = prefix_rule(&e_s, &r, k, is_err) {
                 ctx.rep.violation(Violation {
                     kind: "impl_vs_spec".into(),
@@ -1094,7 +1138,7 @@ fn main() {
          stream, real RegexMatcher over safe patterns) and multi-line cases (literal containing the terminator; real multi-line \
          regexes through a find_at table). For each case EVERY callback index k of the uninterrupted search_slice run is \
          enumerated with both answers (stop, error): impl vs Lean model exactly, and the prefix rule on both sides; \
-         search_reader (1-byte and small chunks), search_path (mmap / no mmap) are checked against the rule relative to their own \
+         search_reader (1-byte and small chunks) with a literal matcher is compared with the Lean model of the reader strategy (c16.rbl: BOM peek, roll buffer, ReadByLine) for the uninterrupted run and each enumerated index; search_reader (1-byte and small chunks), search_path (mmap / no mmap) are checked against the rule relative to their own \
          uninterrupted run (sampled k in the quick tier, all k in the thorough tier), and a reader failing at read call j \
          (Other / Interrupted) must leave a prefix without finish and an error. The byte count of a finish after an early stop \
          is not compared by the rule (only its presence). CLI stream: the real rg binary with -m N [-A -B -v] on generated files, as \
